@@ -182,9 +182,10 @@ Proof.
   - intro H. injection H as -> -> -> ->. repeat split.
 Qed.
 
-Lemma P_att_unfold : forall pr kn prev dslot cur no_acct atts jobs,
-  P_att pr kn prev dslot cur false no_acct atts jobs =
+Lemma P_att_unfold : forall pr kn_all kn prev dslot cur no_acct atts jobs,
+  P_att pr kn_all kn prev dslot cur false no_acct atts jobs =
   (let js := map fst jobs in
+   let sub_may := known_get (dslot / spe pr) kn_all in
    let sub := known_get (dslot / spe pr) kn in
    forallb (fun j => memb job_eqb j js) prev &&
    nodupb pair_eqb (map jkey js) &&
@@ -192,7 +193,7 @@ Lemma P_att_unfold : forall pr kn prev dslot cur no_acct atts jobs,
                         (Some (j_dslot (fst jo), j_root (fst jo), j_val (fst jo), j_sig (fst jo)))) jobs &&
    forallb (fun j =>
      memb pair_eqb (jkey j) (map jkey prev) ||
-     match sub with
+     match sub_may with
      | None => false
      | Some (sign_fail, ds) =>
          existsb (fun a => pair_eqb (a_slot a, a_comm a) (jkey j) && (a_root a =? j_root j)) atts &&
@@ -222,14 +223,14 @@ Proof. reflexivity. Qed.
    an attested committee, not in the past, at StartOfSlot + delay, for one of our validators that
    has that duty with its own slot signature (selected, when the answer was self-consistent); and
    every attested committee with a selected validator (accounts obtainable) has a job. *)
-Lemma P_att_sound : forall pr kn prev dslot cur no_acct atts jobs,
-  P_att pr kn prev dslot cur false no_acct atts jobs = true ->
+Lemma P_att_sound : forall pr kn_all kn prev dslot cur no_acct atts jobs,
+  P_att pr kn_all kn prev dslot cur false no_acct atts jobs = true ->
   let js := map fst jobs in
   (forall j, In j prev -> In j js) /\
   NoDup (map jkey js) /\
   (forall j o, In (j, o) jobs -> o = Some (j_dslot j, j_root j, j_val j, j_sig j)) /\
   (forall j, In j js -> ~ In (jkey j) (map jkey prev) ->
-     exists sf ds, known_get (dslot / spe pr) kn = Some (sf, ds) /\
+     exists sf ds, known_get (dslot / spe pr) kn_all = Some (sf, ds) /\
        (exists a, In a atts /\ akey a = jkey j /\ a_root a = j_root j) /\
        cur <= j_slot j /\ j_time j = j_slot j * slot_ms pr + delay_ms pr /\ j_dslot j = j_slot j /\
        acct_ok_of no_acct (j_val j) = true /\
@@ -242,7 +243,7 @@ Lemma P_att_sound : forall pr kn prev dslot cur no_acct atts jobs,
                    acct_ok_of no_acct (d_val d') = true) ->
        In (akey a) (map jkey js)).
 Proof.
-  intros pr kn prev dslot cur no_acct atts jobs H js. rewrite P_att_unfold in H. cbv zeta in H. fold js in H.
+  intros pr kn_all kn prev dslot cur no_acct atts jobs H js. rewrite P_att_unfold in H. cbv zeta in H. fold js in H.
   apply andb_true_iff in H as [H H5]. apply andb_true_iff in H as [H H4].
   apply andb_true_iff in H as [H H3]. apply andb_true_iff in H as [H1 H2].
   rewrite forallb_forall in H1, H3, H4. apply nodupb_iff in H2.
@@ -252,7 +253,7 @@ Proof.
     apply (option_eqb_spec quad_eqb quad_eqb_iff) in H3. exact H3.
   - intros j Hj Hn. specialize (H4 j Hj). apply orb_true_iff in H4 as [H4|H4].
     + apply memb_pair_iff in H4. contradiction.
-    + destruct (known_get (dslot / spe pr) kn) as [[sf ds]|]; [|discriminate].
+    + destruct (known_get (dslot / spe pr) kn_all) as [[sf ds]|]; [|discriminate].
       exists sf, ds. split; [reflexivity|].
       repeat (apply andb_true_iff in H4 as [H4 ?]).
       match goal with X : existsb _ ds = true |- _ => apply existsb_exists in X as (d & Hd & Hb) end.
@@ -368,8 +369,9 @@ Qed.
 
 (* P_att on any rearrangement of the model's job table *)
 Section ModelPAtt.
-  Variables (pr : params) (kn : known) (prev base : list job) (dslot cur : N) (af : bool)
+  Variables (pr : params) (kn_all kn : known) (prev base : list job) (dslot cur : N) (af : bool)
             (no_acct : list N) (atts : list att) (jobs' : list (job * option (N * N * N * N))).
+  Hypothesis Hsubset : forall ep v, known_get ep kn = Some v -> known_get ep kn_all = Some v.
   Hypothesis Hprev : Permutation prev base.
   Hypothesis Hinv : jobs_inv pr base.
   Hypothesis Hsnd : forall jo, In jo jobs' -> snd jo = Some (aggregate_out (fst jo)).
@@ -385,7 +387,7 @@ Section ModelPAtt.
   Lemma P_att_model_none :
     (if af then None else known_get (dslot / spe pr) kn) = None ->
     Permutation (map fst jobs') base ->
-    P_att pr kn prev dslot cur af no_acct atts jobs' = true.
+    P_att pr kn_all kn prev dslot cur af no_acct atts jobs' = true.
   Proof.
     intros Hsub Hperm. unfold P_att. cbv zeta. rewrite Hsub.
     repeat (apply andb_true_iff; split); [| | | |reflexivity].
@@ -403,9 +405,12 @@ Section ModelPAtt.
     digests_ok ds ->
     Permutation (map fst jobs')
       (attest_run pr (subscription_info (agg_target pr) (sign_ok_of sf) ds) cur (acct_ok_of no_acct) base atts) ->
-    P_att pr kn prev dslot cur af no_acct atts jobs' = true.
+    P_att pr kn_all kn prev dslot cur af no_acct atts jobs' = true.
   Proof.
-    intros sf ds Hsub G Hperm. unfold P_att. cbv zeta. rewrite Hsub.
+    intros sf ds Hsub G Hperm.
+    assert (Hmay : (if af then None else known_get (dslot / spe pr) kn_all) = Some (sf, ds)).
+    { destruct af; [discriminate|]. apply Hsubset. exact Hsub. }
+    unfold P_att. cbv zeta. rewrite Hsub, Hmay.
     set (info := subscription_info (agg_target pr) (sign_ok_of sf) ds) in *.
     set (jobs := attest_run pr info cur (acct_ok_of no_acct) base atts) in *.
     destruct Hinv as [ND W].
@@ -472,10 +477,17 @@ Definition inv_infos (pr : params) (st : state) (kn : known) : Prop :=
   forall ep, get_info ep (st_infos st) = option_map (info_of pr) (known_get ep kn).
 
 Definition kn_digests (kn : known) : Prop :=
-  forall ep sf ds, known_get ep kn = Some (sf, ds) -> digests_ok ds.
+  forall ep sf ds, known_get ep kn = Some (sf, ds) -> digests_ok ds /\ ep + 1 < two64.
 
+(* proper inputs: byte-valued digests, and no subscription for the epoch 2^64-1 (FAR_FUTURE_EPOCH),
+   the only one for which the code's uint64 "subscriptionEpoch+1 < epoch" differs from the plain
+   comparison *)
 Definition op_digests (o : op) : Prop :=
-  match o with OSub _ _ _ _ _ ds => digests_ok ds | OAtt _ _ _ _ _ => True end.
+  match o with
+  | OSub ep _ _ _ _ ds => digests_ok ds /\ ep + 1 < two64
+  | OAtt _ _ _ _ _ => True
+  | OHead _ _ => True
+  end.
 
 Lemma known_get_filter : forall ep ep' kn, ep <> ep' ->
   known_get ep' (filter (fun x => negb (fst x =? ep)) kn) = known_get ep' kn.
@@ -501,10 +513,83 @@ Proof.
   destruct (ep =? ep'); [reflexivity|apply I].
 Qed.
 
-Lemma kn_digests_set : forall kn ep sf ds, kn_digests kn -> digests_ok ds -> kn_digests (known_set ep (sf, ds) kn).
+Lemma kn_digests_set : forall kn ep sf ds, kn_digests kn -> digests_ok ds -> ep + 1 < two64 ->
+  kn_digests (known_set ep (sf, ds) kn).
 Proof.
-  intros kn ep sf ds K G ep' sf' ds' H. rewrite known_get_set in H.
-  destruct (ep =? ep'); [injection H as <- <-; exact G|eapply K; exact H].
+  intros kn ep sf ds K G B ep' sf' ds' H. rewrite known_get_set in H.
+  destruct (N.eqb_spec ep ep') as [E|E]; [injection H as <- <-; subst ep'; split; assumption|eapply K; exact H].
+Qed.
+
+(* --- head events --- *)
+Lemma known_get_prune : forall ep hepoch kn,
+  known_get ep (known_prune hepoch kn) = if old_epoch ep hepoch then None else known_get ep kn.
+Proof.
+  intros ep hepoch kn. unfold known_prune. induction kn as [|[k w] kn IH]; cbn [filter fst known_get].
+  - destruct (old_epoch ep hepoch); reflexivity.
+  - destruct (old_epoch k hepoch) eqn:S; cbn [negb known_get].
+    + rewrite IH. destruct (N.eqb_spec k ep) as [E|E]; [subst k; rewrite S|]; reflexivity.
+    + destruct (N.eqb_spec k ep) as [E|E]; [subst k; rewrite S; reflexivity|exact IH].
+Qed.
+
+Lemma inv_infos_prune : forall pr st kn hepoch jobs,
+  inv_infos pr st kn -> kn_digests kn ->
+  inv_infos pr {| st_infos := prune_infos hepoch (st_infos st); st_jobs := jobs |} (known_prune hepoch kn).
+Proof.
+  intros pr st kn hepoch jobs I K ep. cbn [st_infos]. rewrite get_info_prune, known_get_prune.
+  specialize (I ep). destruct (known_get ep kn) as [[sf ds]|] eqn:E.
+  - destruct (K ep sf ds E) as [_ B]. rewrite (stale64_spec ep hepoch B). unfold old_epoch.
+    destruct (ep + 1 <? hepoch); [reflexivity|exact I].
+  - rewrite I. destruct (stale64 ep hepoch), (old_epoch ep hepoch); reflexivity.
+Qed.
+
+Lemma kn_digests_prune : forall kn hepoch, kn_digests kn -> kn_digests (known_prune hepoch kn).
+Proof.
+  intros kn hepoch K ep sf ds H. rewrite known_get_prune in H.
+  destruct (old_epoch ep hepoch); [discriminate|eapply K; exact H].
+Qed.
+
+Lemma get_info_in_keys : forall ep m v, get_info ep m = Some v -> In ep (map fst m).
+Proof.
+  intros ep m v. induction m as [|[k w] m IH]; cbn [get_info map fst]; [discriminate|].
+  destruct (N.eqb_spec k ep) as [E|E]; [left; exact E|right; apply IH; assumption].
+Qed.
+
+Lemma known_get_in : forall kn x, In x kn -> exists v, known_get (fst x) kn = Some v.
+Proof.
+  intros kn x. induction kn as [|[k w] kn IH]; [intros []|]. intros [E|H]; cbn [known_get].
+  - subst x. cbn [fst]. rewrite N.eqb_refl. eauto.
+  - destruct (k =? fst x); [eauto|apply IH; exact H].
+Qed.
+
+Lemma P_head_sound : forall pr kn hslot cur infos,
+  P_head pr kn hslot cur infos = true ->
+  forall ep v, In (ep, v) kn -> (hslot <> cur \/ hslot / spe pr <= ep + 1) -> In ep (map fst infos).
+Proof.
+  intros pr kn hslot cur infos H ep v Hin Hk. unfold P_head in H. rewrite forallb_forall in H.
+  specialize (H (ep, v) Hin). cbn [fst] in H.
+  assert (E : head_effective hslot cur && old_epoch ep (hslot / spe pr) = false).
+  { unfold head_effective, old_epoch. destruct Hk as [Hk|Hk].
+    - destruct (N.eqb_spec hslot cur); [contradiction|reflexivity].
+    - destruct (N.ltb_spec (ep + 1) (hslot / spe pr)); [lia|apply andb_false_r]. }
+  rewrite E in H. cbn [negb implb] in H. apply (memb_spec N.eqb N.eqb_eq). exact H.
+Qed.
+
+(* the model's head step satisfies P_head on any listing of its information whose epochs are the
+   model's *)
+Lemma model_satisfies_P_head : forall pr st kn hslot cur infos',
+  inv_infos pr st kn -> kn_digests kn ->
+  (forall ep, In ep (map fst (st_infos (fst (step pr st (OHead hslot cur))))) -> In ep (map fst infos')) ->
+  P_head pr kn hslot cur infos' = true.
+Proof.
+  intros pr st kn hslot cur infos' I K Hk. unfold P_head. apply forallb_forall. intros x Hx.
+  destruct (head_effective hslot cur && old_epoch (fst x) (hslot / spe pr)) eqn:E; [reflexivity|].
+  cbn [negb implb]. apply (memb_spec N.eqb N.eqb_eq). apply Hk.
+  destruct (known_get_in kn x Hx) as [[sf ds] Hv]. destruct (K _ _ _ Hv) as [_ B].
+  pose proof (I (fst x)) as Ix. rewrite Hv in Ix. cbn [option_map] in Ix.
+  cbn [step]. unfold head_effective in E. destruct (hslot =? cur); cbn [fst st_infos].
+  - cbn [andb] in E. eapply get_info_in_keys. rewrite get_info_prune, (stale64_spec _ _ B).
+    unfold old_epoch in E. rewrite E. exact Ix.
+  - eapply get_info_in_keys. exact Ix.
 Qed.
 
 Lemma step_att_jobs : forall pr st kn dslot cur af na atts,
@@ -533,45 +618,78 @@ Proof.
   intros x y. apply list_eqb_spec. apply subscription_eqb_iff.
 Qed.
 
-Lemma agree_implies_spec_ok : forall pr ops st kn prev obs,
+Definition kn_subset (kn kn_all : known) : Prop :=
+  forall ep v, known_get ep kn = Some v -> known_get ep kn_all = Some v.
+
+Lemma kn_subset_set : forall kn kn_all ep v,
+  kn_subset kn kn_all -> kn_subset (known_set ep v kn) (known_set ep v kn_all).
+Proof.
+  intros kn kn_all ep v S ep' v'. rewrite !known_get_set. destruct (ep =? ep'); [auto|apply S].
+Qed.
+
+Lemma kn_subset_prune : forall kn kn_all hepoch,
+  kn_subset kn kn_all -> kn_subset (known_prune hepoch kn) kn_all.
+Proof.
+  intros kn kn_all hepoch S ep v. rewrite known_get_prune. destruct (old_epoch ep hepoch); [discriminate|apply S].
+Qed.
+
+Lemma agree_implies_spec_ok : forall pr ops st kn_all kn prev obs,
+  kn_subset kn kn_all ->
   inv_infos pr st kn -> kn_digests kn -> Permutation prev (st_jobs st) -> jobs_inv pr (st_jobs st) ->
   Forall op_digests ops ->
   outs_agree (snd (run pr st ops)) obs = true ->
-  spec_ok pr kn prev ops obs = true.
+  spec_ok pr kn_all kn prev ops obs = true.
 Proof.
-  intros pr ops. induction ops as [|o ops IH]; intros st kn prev obs I K P J D A.
+  intros pr ops. induction ops as [|o ops IH]; intros st kn_all kn prev obs S I K P J D A.
   - cbn [run snd outs_agree] in A. destruct obs; [reflexivity|discriminate].
   - inversion D as [|? ? Do D']; subst.
     cbn [run] in A. destruct (step pr st o) as [st1 x] eqn:Es.
     destruct (run pr st1 ops) as [st2 xs] eqn:Er. cbn [snd outs_agree] in A.
     destruct obs as [|ob obs]; [discriminate|]. apply andb_true_iff in A as [A1 A2].
     assert (A2' : outs_agree (snd (run pr st1 ops)) obs = true) by (rewrite Er; exact A2).
-    destruct o as [ep cur0 na df sf ds|dslot cur0 af na atts].
+    destruct o as [ep cur0 na df sf ds|dslot cur0 af na atts|hslot cur0].
+    3: { (* head event *)
+      assert (Ex : x = OutHead (st_infos st1) /\ st_jobs st1 = st_jobs st /\
+                   st1 = fst (step pr st (OHead hslot cur0))).
+      { rewrite Es. cbn [step] in Es. destruct (hslot =? cur0); injection Es as <- <-; cbn [fst st_infos st_jobs]; auto. }
+      destruct Ex as (-> & Ej & E1).
+      destruct ob as [| |infos' len'|]; try discriminate. cbn [out_agrees] in A1.
+      apply andb_true_iff in A1 as [A1 _]. apply andb_true_iff in A1 as [A1 _].
+      apply (list_eqb_spec N.eqb N.eqb_eq) in A1.
+      cbn [spec_ok]. apply andb_true_iff. split.
+      - apply (model_satisfies_P_head pr st kn hslot cur0 infos' I K). rewrite <- E1, <- A1.
+        intros ep Hep. eapply Permutation_in; [apply Permutation_sym, Permutation_map, sort_by_perm|exact Hep].
+      - rewrite <- Ej in P, J. cbn [step] in E1. unfold head_effective.
+        destruct (hslot =? cur0); cbn [fst] in E1; subst st1.
+        + refine (IH _ _ _ _ _ _ _ _ P J D' A2');
+            [apply kn_subset_prune; exact S|apply inv_infos_prune; assumption|apply kn_digests_prune; exact K].
+        + exact (IH _ _ _ _ _ S I K P J D' A2'). }
     + (* subscribe *)
       cbn [step] in Es. cbn [spec_ok].
       destruct na.
-      * injection Es as <- <-. destruct ob as [calls' stored'| |]; try discriminate.
+      * injection Es as <- <-. destruct ob as [calls' stored'| | |]; try discriminate.
         cbn [out_agrees] in A1. apply andb_true_iff in A1 as [A1 _]. apply list_eqb_subscription in A1. subst calls'.
         cbn [map]. rewrite P_sub_nothing by reflexivity. cbn [andb].
-        refine (IH _ _ _ _ _ _ _ _ D' A2'); [| |exact P|exact J].
+        refine (IH _ _ _ _ _ _ _ _ _ _ D' A2'); [apply kn_subset_set; exact S| | |exact P|exact J].
         -- apply (inv_infos_set pr st kn ep ([], []) (st_jobs st)). exact I.
-        -- apply kn_digests_set; [exact K|]. intros d [].
+        -- apply kn_digests_set; [exact K| |apply Do]. intros d [].
       * destruct df.
-        -- injection Es as <- <-. destruct ob as [calls' stored'| |]; try discriminate.
+        -- injection Es as <- <-. destruct ob as [calls' stored'| | |]; try discriminate.
            cbn [out_agrees] in A1. apply andb_true_iff in A1 as [A1 _]. apply list_eqb_subscription in A1. subst calls'.
            cbn [map]. rewrite P_sub_nothing by reflexivity. cbn [andb].
-           exact (IH _ _ _ _ I K P J D' A2').
-        -- injection Es as <- <-. destruct ob as [calls' stored'| |]; try discriminate.
+           exact (IH _ _ _ _ _ S I K P J D' A2').
+        -- injection Es as <- <-. destruct ob as [calls' stored'| | |]; try discriminate.
            cbn [out_agrees] in A1. apply andb_true_iff in A1 as [A1 _]. apply list_eqb_subscription in A1. subst calls'.
            cbn [map]. cbn [op_digests] in Do.
+           destruct Do as [Do Db].
            rewrite model_satisfies_P_sub_perm; [|exact Do|apply sort_by_perm]. cbn [andb].
-           refine (IH _ _ _ _ _ _ _ _ D' A2'); [| |exact P|exact J].
+           refine (IH _ _ _ _ _ _ _ _ _ _ D' A2'); [apply kn_subset_set; exact S| | |exact P|exact J].
            ++ apply (inv_infos_set pr st kn ep (sf, ds) (st_jobs st)). exact I.
            ++ apply kn_digests_set; assumption.
     + (* attest *)
       destruct (step_att_jobs pr st kn dslot cur0 af na atts I) as (R1 & R2 & R3).
       rewrite Es in R1, R2, R3. cbn [fst snd] in R1, R2, R3. subst x.
-      destruct ob as [|jobs'|]; try discriminate. cbn [out_agrees] in A1.
+      destruct ob as [|jobs'| |]; try discriminate. cbn [out_agrees] in A1.
       apply andb_true_iff in A1 as [A1 A1'].
       apply (list_eqb_spec job_eqb job_eqb_iff) in A1.
       assert (Hperm : Permutation (map fst jobs') (st_jobs st1)) by (rewrite <- A1; apply sort_by_perm).
@@ -584,7 +702,7 @@ Proof.
            ++ destruct af; [discriminate|]. eapply K. exact Esub.
            ++ rewrite <- R3. exact Hperm.
         -- eapply P_att_model_none; try eassumption. rewrite <- R3. exact Hperm.
-      * refine (IH _ _ _ _ _ K _ _ D' A2'); [|exact Hperm|].
+      * refine (IH _ _ _ _ _ S _ K _ _ D' A2'); [|exact Hperm|].
         -- intro ep. rewrite R2. apply I.
         -- pose proof (proj2 (step_jobs pr st (OAtt dslot cur0 af na atts)) J) as J1. rewrite Es in J1. exact J1.
 Qed.
@@ -595,6 +713,7 @@ Definition case_digests_ok (c : case) : Prop := Forall op_digests (c_ops c).
 Lemma agree_implies_P_b : forall c, case_digests_ok c -> agree c = true -> P_b c = true.
 Proof.
   intros c D A. unfold P_b, agree in *. eapply agree_implies_spec_ok; try eassumption.
+  - intros ep v H. exact H.
   - intro ep. reflexivity.
   - intros ep sf ds H. discriminate.
   - apply Permutation_refl.
